@@ -105,7 +105,8 @@ def one(ctx, text, opts, src):
     from html5lib.serializer import HTMLSerializer
     warnings.simplefilter("ignore")
     try:
-        t = html5lib.parse(text)
+        # the full tree (document node with the doctype): the doctype token passes the sanitizer untouched and is written too
+        t = gen.parse_real(text, tb="etree", full=True)
         out = HTMLSerializer(sanitize=True, **opts).render(html5lib.getTreeWalker("etree")(t))
     except Exception as e:
         ctx.fail("pipeline-raises:%s" % type(e).__name__, "parse/sanitize/serialize raised", {"input": text[:400], "options": opts})
@@ -143,10 +144,16 @@ def witness_case(ctx, w):
     one(ctx, w["input"], dict(w.get("options", {})), "witness")
 
 
+DOCTYPES = ["<!DOCTYPE html>", "<!DOCTYPE html PUBLIC 'x\"><script>alert(1)</script>'>", "<!DOCTYPE html PUBLIC \"a'><img src=x onerror=alert(1)>\">",
+            "<!DOCTYPE html SYSTEM 'y\"><script>alert(2)</script>'>", "<!DOCTYPE html PUBLIC 'p' \"s'><iframe src=javascript:alert(1)>\">",
+            "<!DOCTYPE a><script>x</script>b>", "<!DOCTYPE html SYSTEM \"about:legacy-compat\"><!--c-->", "<!doctype x public \"-//W3C//DTD HTML 4.01//EN\" '\"><b onclick=x>'>",
+            "<!DOCTYPE html PUBLIC '\"' '>'><script>alert(3)</script>"]
+
+
 def run(ctx):
     rng = ctx.rng
     for i in range(ctx.scale(500, 15000)):
-        parts = []
+        parts = [rng.choice(DOCTYPES)] if rng.random() < 0.25 else []
         for _ in range(rng.randint(1, 4)):
             parts.append(rng.choice(XSS_BITS) if rng.random() < 0.5 else gen.soup(rng, maxparts=5))
         text = "".join(parts)
